@@ -535,17 +535,58 @@ def t_a2(ctx: Ctx, rule: str) -> None:
 
 
 def t_a2b(ctx: Ctx, rule: str) -> None:
-    """The in-flight creation is visible to other deciders: the list receiving the placeholder during the
-    first creation step must alias the decided node's results."""
+    """The in-flight first creation step is visible to other deciders of the object root: either the
+    configuration node's results alias the root's results, or an UNKNOWN reservation sits on the root's results
+    from before the first suspension until the second step is entered."""
     fn = ctx.repo.func(TTN)
-    ctx.touch(TTN)
-    for node in ast.walk(fn.node):
-        for tgt, val in stores_attr(node, "results"):
-            aliased = isinstance(val, ast.Attribute) and val.attr == "results"
-            ctx.record(rule, "PROV", TTN, first_line(node), aliased,
-                       {"rule": "results of the ephemeral configuration node alias the object root's results"},
-                       "" if aliased else "the configuration step of the two-step object creation records its in-flight "
-                       "placeholder on a copy of the object root's results, so concurrent deciders with max_tries >= 2 do not count it")
+    views = _entry_views(ctx, TTN, {"run_test_node", "results", "started_worker", "remove"}, ["object_name", "worker", "params"])
+    run_calls = [c for c in calls_in(fn.node) if call_name(c) == "run_test_node"]
+    if len(run_calls) < 2:
+        raise AnalysisError(f"{TTN}: expected the two creation steps (two run_test_node calls)")
+    root = ast.unparse(run_calls[-1].args[0])
+    n, problems = 0, []
+    for view in views:
+        aws = [(i, a) for i, a in view.awaits()]
+        if not aws:
+            continue
+        n += 1
+        a1, first = aws[0]
+        pre = ast.unparse(first.value.args[0]) if isinstance(first.value, ast.Call) and first.value.args else None
+        if pre == root:
+            continue
+        alias = any(isinstance(val, ast.Attribute) and val.attr == "results" and ast.unparse(val.value) == root
+                    and ast.unparse(tgt.value) == pre
+                    for i, s_ in view.stmts() for tgt, val in stores_attr(s_, "results") if i < a1)
+        if alias:
+            continue
+        reserve = None
+        for i, s_ in view.stmts(_is_placeholder_stmt):
+            if i >= a1:
+                break
+            tgt = s_.target if isinstance(s_, ast.AugAssign) else s_.value.func.value
+            if ast.unparse(tgt) == f"{root}.results" and any(_unknown_dict(view.canon(el, i)) for el in _added_elements(s_)):
+                reserve = i
+        if reserve is None:
+            problems.append(("the first creation step is awaited while neither an alias nor an UNKNOWN reservation makes it "
+                             "visible in the object root's results", view))
+            continue
+        removals = [i for i, c in view.calls(lambda c: call_name(c) in ("remove", "pop", "clear")
+                                             and ast.unparse(c.func.value) == f"{root}.results")]
+        if any(r < a1 for r in removals):
+            problems.append(("the reservation on the object root is dropped before the first creation step is awaited", view))
+        for r in removals:
+            later = [i for i, a in aws if i > r]
+            if later:
+                nxt = [a for i, a in aws if i == later[0]][0]
+                if not (isinstance(nxt.value, ast.Call) and call_name(nxt.value) == "run_test_node"
+                        and ast.unparse(nxt.value.args[0]) == root):
+                    problems.append(("a suspension point lies between dropping the reservation and entering the second creation step", view))
+    ctx.expect_sites(rule, n, 1, TTN, False, "awaiting path of traverse_terminal_node")
+    construct = "pre_node.results = list(test_node.results)" if problems and "neither an alias" in problems[0][0] else \
+        "first creation step visible on the object root's results (alias or UNKNOWN reservation) until the second step is entered"
+    ctx.record(rule, "PROV", TTN, construct, not problems,
+               {"paths": n, **({"path": problems[0][1].path.describe()} if problems else {})},
+               "" if not problems else problems[0][0] + "; concurrent deciders with max_tries >= 2 do not count the in-flight try")
 
 
 def t_r1(ctx: Ctx, rule: str) -> None:
@@ -760,6 +801,66 @@ def t_s1(ctx: Ctx, rule: str) -> None:
                    "" if ok else f"scope discrimination of {fref} deviates from the shared scheme: {got}")
 
 
+def t_s1c(ctx: Ctx, rule: str) -> None:
+    """Per scope branch the selector is the same: worker (+swarm) identity / swarm identity / none."""
+    fref = f"{NODE}:TestNode.shared_filtered_results"
+    fn = ctx.repo.func(fref)
+    ctx.touch(fref)
+    chain = next((n for n in ast.walk(fn.node) if isinstance(n, ast.If) and "pool_scope" in ast.unparse(n.test)), None)
+    if chain is None or len(chain.orelse) != 1 or not isinstance(chain.orelse[0], ast.If):
+        raise AnalysisError(f"{fref}: scope chain not found")
+    second = chain.orelse[0]
+
+    def sel(body):
+        a = [s for s in body if isinstance(s, ast.Assign) and len(s.targets) == 1 and isinstance(s.targets[0], ast.Name)]
+        return (a[0].targets[0].id, ast.unparse(a[0].value)) if len(a) == 1 else (None, None)
+
+    v1, s1 = sel(chain.body)
+    v2, s2 = sel(second.body)
+    v3, s3 = sel(second.orelse)
+    ok = (v1 == v2 == v3 and v1 is not None
+          and s1 == "self.started_worker.swarm_id + '.' + self.started_worker.id"
+          and s2 == "self.started_worker.swarm_id" and s3 == "''")
+    ctx.record(rule, "SIBLING", fref, "result filter per scope: '<swarm>.<worker>' / '<swarm>' / '' (everything)", ok,
+               {"per_worker": s1, "per_swarm": s2, "global": s3},
+               "" if ok else f"the scope filter of shared_filtered_results changed: per worker {s1!r}, per swarm {s2!r}, global {s3!r}")
+    # the filter is applied by containment in the result name, to every shared result
+    loops = [l for l in ast.walk(fn.node) if isinstance(l, ast.For)]
+    ok2 = False
+    if len(loops) == 1 and isinstance(loops[0].target, ast.Name) and v1:
+        r = loops[0].target.id
+        it = ast.unparse(loops[0].iter)
+        defs = [x for x in ast.walk(fn.node) if isinstance(x, ast.Assign) and ast.unparse(x.targets[0]) == it]
+        src = ast.unparse(defs[0].value) if len(defs) == 1 else it
+        conds = [ast.unparse(i.test) for i in ast.walk(loops[0]) if isinstance(i, ast.If)]
+        ok2 = src == "self.shared_results" and conds == [f"{v1} in {r}['name']"]
+    ctx.record(rule + "b", "PROV", fref, "filtered results = shared results whose name contains the scope filter", ok2, {},
+               "" if ok2 else "shared_filtered_results no longer filters the shared results by the scope identifier")
+    for which in ("started", "finished"):
+        fr = f"{NODE}:TestNode.is_{which}"
+        f2 = ctx.repo.func(fr)
+        ctx.touch(fr)
+        wname = f2.params()[1]
+        ch = next((n for n in ast.walk(f2.node) if isinstance(n, ast.If) and "pool_scope" in ast.unparse(n.test)), None)
+        if ch is None or len(ch.orelse) != 1 or not isinstance(ch.orelse[0], ast.If):
+            raise AnalysisError(f"{fr}: scope chain not found")
+        b1 = [ast.unparse(x) for x in ch.body]
+        ok_w = b1 == [f"return {wname} in self.shared_{which}_workers"]
+        sec = ch.orelse[0]
+        own = [x for x in sec.body if isinstance(x, ast.Assign) and ast.unparse(x.value) == f"{wname}.swarm_id"]
+        comps = [x for x in ast.walk(sec) if isinstance(x, ast.SetComp)]
+        ok_s = len(own) == 1 and len(comps) == 1
+        if ok_s:
+            oc = own[0].targets[0].id
+            g = comps[0].generators[0]
+            ok_s = (ast.unparse(g.iter) == f"self.shared_{which}_workers" and isinstance(g.target, ast.Name)
+                    and [ast.unparse(c) for c in g.ifs] == [f"{g.target.id}.swarm_id == {oc}"]
+                    and ast.unparse(comps[0].elt) == g.target.id)
+        ctx.record(rule + "c", "SIBLING", fr, f"is_{which}: per worker -> worker in shared_{which}_workers; per swarm -> workers with worker's swarm_id",
+                   ok_w and ok_s, {"per_worker": b1},
+                   "" if ok_w and ok_s else f"the per-worker / per-swarm selection of is_{which} changed")
+
+
 # ---------------------------------------------------------------------- T.E1
 FORBIDDEN_CONCURRENCY = {"threading", "multiprocessing", "concurrent", "_thread"}
 FORBIDDEN_CALLS = {"run_in_executor", "to_thread", "Thread", "ThreadPoolExecutor", "ProcessPoolExecutor"}
@@ -799,3 +900,14 @@ def PathEnum_raised(view) -> str | None:
     from ..paths import PathEnum
 
     return PathEnum._raised_name(view.path.exit_node) if view.path.exit == "raise" and view.path.exit_node is not None and isinstance(view.path.exit_node, ast.Raise) else None
+
+
+def PathEnumName(stmts) -> str | None:
+    """Exception type name raised by the first raise statement among `stmts`."""
+    from ..paths import PathEnum
+
+    for s in stmts:
+        for n in ast.walk(s):
+            if isinstance(n, ast.Raise):
+                return PathEnum._raised_name(n)
+    return None
